@@ -295,9 +295,81 @@ func mGenFiles() []*mFile {
 		}
 	}
 	for _, f := range files {
-		f.render()
+		if zzverif.Param("LISTENER", 0) == 1 {
+			f.renderTree()
+		} else {
+			f.render()
+		}
 	}
 	return files
+}
+
+// ---- LISTENER=1: no stub for the per-file transform.  TransformModularDSLToProto and the
+// real listener run; only ParseDSL's lexer+parser are replaced (job redirect
+// ParseDSL -> verifMergeParseStub) by the generated parse tree of the file (parser stub
+// of tree.go).  The file text and the positions of the declarations are those of the tree.
+
+func mExpr(form int) *dExpr {
+	direct := &dExpr{kind: 0, restr: []dRestr{{typ: "user"}}}
+	switch form {
+	case 0:
+		return &dExpr{kind: 3, operands: []*dExpr{direct}}
+	case 1:
+		return &dExpr{kind: 3, operands: []*dExpr{{kind: 1, name: "x"}}}
+	}
+	return &dExpr{kind: 3, op: 1, operands: []*dExpr{direct, {kind: 1, name: "x"}}}
+}
+
+func (f *mFile) doc() *dDoc {
+	d := &dDoc{module: f.module, schema: "1.1"}
+	if f.isModel {
+		d.module = ""
+	}
+	for _, dc := range f.decls {
+		t := dType{name: dc.name, extend: dc.extend}
+		for _, r := range dc.rels {
+			t.rels = append(t.rels, dRel{name: r.name, expr: mExpr(r.form)})
+		}
+		d.types = append(d.types, t)
+	}
+	for _, c := range f.conds {
+		d.conds = append(d.conds, dCond{name: c.name, params: []dParam{{name: "x", typ: "int"}}, expr: []string{"x", " ", "<", " ", "1"}})
+	}
+	return d
+}
+
+func (f *mFile) renderTree() {
+	_, b := docTree(f.doc())
+	at := func(key string) (int, int) {
+		t := b.names[key]
+		return t.GetLine() - 1, t.GetColumn()
+	}
+	for i := range f.decls {
+		d := &f.decls[i]
+		d.line, d.col = at(keyOf("type", i, -1))
+		for j := range d.rels {
+			d.rels[j].line, d.rels[j].col = at(keyOf("rel", i, j))
+		}
+	}
+	for i := range f.conds {
+		f.conds[i].line, f.conds[i].col = at(keyOf("cond", i, -1))
+	}
+	f.text = strings.Join(b.text, "")
+	if f.broken {
+		f.text += "\ntype"
+	}
+}
+
+// verifMergeParseStub: ParseDSL for the file whose turn it is (the merge parses the files in list order, once each).
+func verifMergeParseStub(data string) (*OpenFgaDslListener, *OpenFgaDslErrorListener) {
+	f := mFiles[mStubCalls%len(mFiles)]
+	mStubCalls++
+	zzverif.Assert(data == f.text, "file-contents-reach-the-parser-unchanged")
+	l, errs, _ := verifParseDoc(f.doc())
+	if f.broken {
+		errs = multierror.Append(errs, mSyntaxError(0, 0, "syntax error"))
+	}
+	return l, &OpenFgaDslErrorListener{Errors: errs}
 }
 
 // ---- the specification of the merge (written from the property text)
